@@ -59,6 +59,8 @@ MC_CFG = """CONSTANTS
   DerOps <- MCNone
   ProjShapes <- MCProjShapes
   AngleQs <- MCAngleQs
+  ClsShapes <- MCClsShapes
+  ClsLens <- MCClsLens
   Families <- MCFamilies
 SPECIFICATION Spec
 INVARIANT GridAsBuilt
@@ -97,6 +99,8 @@ MC_H_CFG = """CONSTANTS
   DerOps <- MCDerOps
   ProjShapes <- MCNone
   AngleQs <- MCNone
+  ClsShapes <- MCNone
+  ClsLens <- MCNone
   Families <- MCNone
 SPECIFICATION SpecH
 INVARIANT GridAsBuilt
@@ -127,6 +131,8 @@ TRACE_CFG = """CONSTANTS
   DerOps = {}
   ProjShapes = {}
   AngleQs = {}
+  ClsShapes = {}
+  ClsLens = {}
   Families = {}
 SPECIFICATION TraceSpec
 POSTCONDITION TraceAccepted
@@ -294,6 +300,46 @@ def _profiles():
     return _CLS
 
 
+_GCLS = {}
+CONTAINERS = ("Array2D", "Grid2D", "VectorYX2D", "ArrayIrregular", "Grid2DIrregular", "VectorYX2DIrregular", "Array1D", "Grid1D")
+CLASSES_OF = {"g2d": ("base", "sub"), "irr": ("base", "uniform", "sub"), "g1d": ("base", "sub"), "nd": ("base",)}
+
+
+def _grid_classes():
+    """Concrete classes of the three grid kinds: the kind's own class, the other public classes of the kind exported by the
+    library (found by isinstance over the package's namespace: Grid2DIrregularUniform), and a trivial subclass defined here, the way
+    downstream projects extend the grid classes."""
+    if _GCLS:
+        return _GCLS
+    import inspect
+
+    import autoarray as aa
+
+    class MyGrid2D(aa.Grid2D):
+        pass
+
+    class MyGrid2DIrregular(aa.Grid2DIrregular):
+        pass
+
+    class MyGrid1D(aa.Grid1D):
+        pass
+
+    public = {n for n in dir(aa) if inspect.isclass(getattr(aa, n)) and issubclass(getattr(aa, n), (aa.Grid2D, aa.Grid2DIrregular, aa.Grid1D))}
+    if public != {"Grid2D", "Grid2DIrregular", "Grid1D", "Grid2DIrregularUniform"}:
+        raise core.MachineryError(f"the library exports grid classes the C17 instance family does not know: {sorted(public)}")
+    _GCLS.update({("g2d", "sub"): MyGrid2D, ("irr", "sub"): MyGrid2DIrregular, ("g1d", "sub"): MyGrid1D,
+                  ("irr", "uniform"): aa.Grid2DIrregularUniform})
+    return _GCLS
+
+
+def _container_name(el):
+    """The library container class an object is an instance of (first one in its MRO), else its own class name."""
+    for c in type(el).__mro__:
+        if c.__name__ in CONTAINERS and c.__module__.startswith("autoarray."):
+            return c.__name__
+    return type(el).__name__
+
+
 # ---------------------------------------------------------------------------------------------
 # gamma: instance -> concrete objects
 # ---------------------------------------------------------------------------------------------
@@ -332,7 +378,8 @@ def complete(inst, seed):
     """Add the concrete choices the abstract instance leaves open (unit, scales, origin, centre, quarter turns, angle,
     irregular coordinates), seeded by the instance itself."""
     inst = dict(inst)
-    key = json.dumps({k: inst[k] for k in ("api", "gk", "rk", "lst", "h", "w", "u", "par", "depth", "flag")}, sort_keys=True)
+    inst.setdefault("cls", "base")
+    key = json.dumps({k: inst[k] for k in ("api", "gk", "rk", "lst", "h", "w", "u", "par", "depth", "flag", "cls")}, sort_keys=True)
     rng = np.random.default_rng([seed, int.from_bytes(key.encode()[-8:].rjust(8, b"0"), "little") % (2 ** 31), len(key),
                                  sum(key.encode()) % 65521])
     api, gk = inst["api"], inst["gk"]
@@ -418,6 +465,30 @@ def complete(inst, seed):
 
 
 def build_grid(inst):
+    """The grid of the instance, as an object of the instance's concrete class."""
+    grid = _build_base_grid(inst)
+    cls, gk = inst.get("cls", "base"), inst["gk"]
+    if cls == "base" or gk == "nd":
+        return grid
+    import autoarray as aa
+
+    C = _grid_classes()[(gk, cls)]
+    vals = np.array(grid, dtype=float)
+    if gk == "g2d":
+        over = {"over_sampling": aa.OverSamplingUniform(sub_size=inst["sub"])} if inst.get("sub") else {}
+        new = C(values=vals, mask=grid.mask, **over)
+    elif gk == "g1d":
+        new = C(values=vals, mask=grid.mask)
+    elif cls == "uniform":
+        new = C(values=vals, shape_native=(1, vals.shape[0]), pixel_scales=(1.0, 1.0))
+    else:
+        new = C(values=[(float(y), float(x)) for y, x in vals])
+    if type(new) is not C or not np.array_equal(np.array(new, dtype=float), vals):
+        raise core.MachineryError(f"could not build a {C.__name__} holding the coordinates of {inst}")
+    return new
+
+
+def _build_base_grid(inst):
     import autoarray as aa
 
     tau, gk = inst["tau"], inst["gk"]
@@ -552,7 +623,7 @@ def _containers(rec, inst, res, call, grid, coords, two_d):
     api, rk, tau = inst["api"], inst["rk"], inst["tau"]
     n = len(inst["u"])
     els = list(res) if isinstance(res, list) else [res]
-    rec["kinds"] = [type(el).__name__ for el in els]
+    rec["kinds"] = [_container_name(el) for el in els]
     rec["out"] = [_tags_of(el, e, rk, "slim") for e, el in enumerate(els)]
     rng = np.random.default_rng(n * 7 + len(api))
     payload = [[rng.standard_normal(BIG) * s for s in (1.0, 1e-300)], [rng.standard_normal(BIG) * s for s in (1e290, 3.0)]]
@@ -614,8 +685,8 @@ def record_for(inst, shared=None):
     api, gk, rk, lst = inst["api"], inst["gk"], inst["rk"], inst["lst"]
     tau = inst["tau"]
     n = len(inst["u"])
-    rec = {"p": "C17", "api": api, "gk": gk, "rk": rk, "lst": lst, "h": inst["h"], "w": inst["w"], "u": list(inst["u"]),
-           "raised": False, "inst": inst}
+    rec = {"p": "C17", "api": api, "gk": gk, "cls": inst.get("cls", "base"), "rk": rk, "lst": lst, "h": inst["h"], "w": inst["w"],
+           "u": list(inst["u"]), "raised": False, "inst": inst}
     cls = _profiles()[inst["prof"]]
     centre = (inst["cy"] * tau, inst["cx"] * tau)
     angle = None if inst["angle"] <= -999 else inst["angle"]
@@ -718,7 +789,8 @@ def complete_history(H, seed):
     lattice of unit 1/(4m), near the origin so that bare relocation finds coordinates inside the minimum), the profile (centre
     near the origin too, quarter turns, angle), the over-sampling the Grid2D carries, and per call the open parameters."""
     H = dict(H)
-    key = json.dumps({k: H[k] for k in ("gk", "h", "w", "u", "par", "calls")}, sort_keys=True, default=str)
+    H.setdefault("cls", "base")
+    key = json.dumps({k: H[k] for k in ("gk", "h", "w", "u", "par", "calls", "cls")}, sort_keys=True, default=str)
     H["calls"] = [dict(c) if isinstance(c, dict) else c for c in H["calls"]]
     rng = np.random.default_rng([seed, len(key), sum(key.encode()) % 65521, int.from_bytes(key.encode()[-6:], "little") % (2 ** 31)])
     gk, par = H["gk"], H["par"]
@@ -827,7 +899,7 @@ def history_records(H, hid=1):
     for step, c in enumerate(H["calls"], start=1):
         if c["api"] == "derive":
             op = c["op"]
-            rec = {"p": "C17", "api": "derive", "gk": gk, "rk": "values", "lst": False, "h": H["h"], "raised": False,
+            rec = {"p": "C17", "api": "derive", "gk": gk, "cls": H.get("cls", "base"), "rk": "values", "lst": False, "h": H["h"], "raised": False,
                    "hid": hid, "step": step, "inplace": op[0] == 3, "pn": len(u), "pafter": [], "dcoords": [],
                    "base": base_units, "inst": dict(base, **c, history=H, step=step)}
             if gk == "g1d":
@@ -898,7 +970,8 @@ def bounds(quick):
                 "hist_shapes": [(1, 2), (2, 2), (1, 3)], "hist_lens": [2, 3], "hist_geoms": [(4, 1, -2, 3), (8, 3, -4, 10)], "hist_len": 2,
                 "der_shapes": [(1, 3)], "der_lens": [3], "der_geoms": [(4, 1, -2, 3)],
                 "der_ops": [o for o in DER_OPS if o != (2, 2, 0, 0)],
-                "proj_shapes": [(1, 1), (1, 2), (2, 2), (1, 3)], "angle_qs": [-2, -1, 0, 1, 2, 3, 5, 98, 99]}
+                "proj_shapes": [(1, 1), (1, 2), (2, 2), (1, 3)], "angle_qs": [-2, -1, 0, 1, 2, 3, 5, 98, 99],
+                "cls_shapes": [(1, 2), (2, 2)], "cls_lens": [2, 3]}
     return {"shapes": all33 + [(2, 4), (4, 2), (1, 5), (5, 1)], "mid_shapes": all33, "lens": [1, 2, 3, 4, 5, 6],
             "geoms": [(2, 0, 0, 3), (2, 1, 1, 3), (4, 1, -2, 3), (4, 0, 0, 10), (8, 0, 0, 10), (8, 3, -4, 10), (6, 1, 2, 10), (10, 5, 0, 10)],
             "pgeoms": [(2, 0, 0), (4, 1, -2), (2, 3, 3), (6, -5, 2), (8, 0, 7)], "depths": [1, 2, 3, 4], "lattice": 14,
@@ -908,7 +981,8 @@ def bounds(quick):
             "hist_geoms": [(4, 1, -2, 3), (8, 3, -4, 10), (6, 1, 2, 10)], "hist_len": 3,
             "der_shapes": [(1, 3)], "der_lens": [2, 3], "der_geoms": [(8, 3, -4, 10)],
             "der_ops": list(DER_OPS) + [(1, -3, 0, 0), (3, 1, -4, 2)],
-            "proj_shapes": [s for s in all33 if s != (3, 3)], "angle_qs": [-4, -3, -2, -1, 0, 1, 2, 3, 4, 5, 6, 98, 99]}
+            "proj_shapes": [s for s in all33 if s != (3, 3)], "angle_qs": [-4, -3, -2, -1, 0, 1, 2, 3, 4, 5, 6, 98, 99],
+            "cls_shapes": [(1, 2), (2, 1), (2, 2), (1, 3), (2, 3)], "cls_lens": [1, 2, 3, 4]}
 
 
 def expected_count(b):
@@ -921,7 +995,14 @@ def expected_count(b):
     rs = {g[3] for g in b["geoms"]}
     reloc = 3 * len(b["geoms"]) * nm(b["mid_shapes"]) + 2 * (2 * b["lattice"] + 1) ** 2 * len(rs)
     tiny = len(b["tiny_eps"]) * len(b["tiny_dirs"]) * len(rs) * (2 + 3 * nm(b["tiny_shapes"]))
-    return {"wrap": wrap, "project": proj, "transform": trans, "reloc": reloc, "tiny": tiny}
+    # every decorator on the non-base classes of every kind (g2d: 1 class, irr: 2, g1d: 1)
+    mc, lc = nm(b["cls_shapes"]), len(b["cls_lens"])
+    m1 = sum(2 ** n - 1 for n in b["cls_lens"])
+    aqs = len([a for a in b["angle_qs"] if a in (-1, 0, 1, 99)])
+    cls = (6 * mc + len(b["pgeoms"]) * aqs * mc + 2 * len(b["depths"]) * mc + 3 * len(b["geoms"]) * mc) \
+        + 2 * (6 * lc + 2 * lc + 2 * len(b["depths"]) * lc + 3 * lc * len(rs)) \
+        + (4 * m1 + aqs * m1)
+    return {"wrap": wrap, "project": proj, "transform": trans, "reloc": reloc, "tiny": tiny, "classes": cls}
 
 
 def enumerate_instances(ctx, b):
@@ -938,12 +1019,14 @@ def enumerate_instances(ctx, b):
         f"MCTinyShapes == {_tla_set(_tup(s) for s in b['tiny_shapes'])}",
         f"MCProjShapes == {_tla_set(_tup(s) for s in b['proj_shapes'])}",
         f"MCAngleQs == {_tla_set(str(a) for a in b['angle_qs'])}",
+        f"MCClsShapes == {_tla_set(_tup(s) for s in b['cls_shapes'])}",
+        f"MCClsLens == {_tla_set(str(n) for n in b['cls_lens'])}",
         "MCNone == {}",
     ])
     want = expected_count(b)
     # TLC computes initial states in one thread and slows down superlinearly with their number: split large bounds over runs
-    groups = [["wrap", "project", "transform", "reloc", "tiny"]] if sum(want.values()) < 15000 else \
-             [["wrap"], ["project", "transform"], ["reloc"], ["tiny"]]
+    groups = [["wrap", "project", "transform", "reloc", "tiny", "classes"]] if sum(want.values()) < 15000 else \
+             [["wrap"], ["project", "transform"], ["reloc"], ["tiny", "classes"]]
 
     def one(fams):
         d = defs + "\nMCFamilies == " + _tla_set(f'"{f}"' for f in fams)
@@ -1081,6 +1164,8 @@ def random_histories(rng, count, max_side=6):
                     continue
                 calls.insert(pos, {"api": "derive", "op": op})
             H["calls"] = calls
+        cs = CLASSES_OF[gk]
+        H["cls"] = cs[int(rng.integers(0, len(cs)))] if rng.random() < 0.5 else "base"
         out.append(H)
     return out
 
@@ -1192,15 +1277,22 @@ def random_instances(rng, count, max_side=7):
                 inst.update({"h": 1, "w": n, "u": list(range(n)), "par": [0, 0, 0, R], "cy": cy, "cx": cx,
                              "pts": [[int(p[0]) + cy, int(p[1]) + cx] for p in pts]})
             out.append(inst)
+    for inst in out:   # any concrete class of the grid kind
+        cs = CLASSES_OF[inst["gk"]]
+        inst["cls"] = cs[int(rng.integers(0, len(cs)))] if rng.random() < 0.5 else "base"
     return out
 
 
 # ---------------------------------------------------------------------------------------------
 # validation
 # ---------------------------------------------------------------------------------------------
+def type_name(rec):
+    return {"uniform": "Grid2DIrregularUniform", "sub": "user-defined subclass"}.get(rec.get("cls"), rec.get("cls"))
+
+
 def _describe(rec):
     i = rec.get("inst", {})
-    s = f"{rec['api']} on {rec['gk']} ({rec['rk']}{', list' if rec['lst'] else ''}) {rec['h']}x{rec['w']} u={rec['u']}"
+    s = f"{rec['api']} on {rec['gk']}{'' if rec.get('cls', 'base') == 'base' else '[' + type_name(rec) + ']'} ({rec['rk']}{', list' if rec['lst'] else ''}) {rec['h']}x{rec['w']} u={rec['u']}"
     if rec["api"] in ("reloc",) + STACKS:
         s += f" profile={i.get('prof')} r_min={rec.get('R')} units of {i.get('tau')}; points rel. centre {rec.get('pt')} -> received*S {rec.get('q')} (S={rec.get('S')})"
         if i.get("tiny"):
@@ -1281,6 +1373,9 @@ def run(ctx):
                   "project_grid_profile_angles_in_quarter_turns(98 numeric, 99 no angle attribute)": b["angle_qs"],
                   "project_grid_2d_frames": b["proj_shapes"],
                   "numeric_angles": [round(a, 4) for a in ANGLES_NUMERIC] + ["random in [-360, 720]"],
+                  "grid_classes": {"per_kind": {k: list(v) for k, v in CLASSES_OF.items()}, "uniform": "aa.Grid2DIrregularUniform",
+                                   "sub": "class MyGrid(aa.Grid2D / aa.Grid2DIrregular / aa.Grid1D): pass", "2d_frames": b["cls_shapes"],
+                                   "1d_and_irregular_lengths": b["cls_lens"], "decorators": "all, plus random instances and histories"},
                   "random_histories": 40 if quick else 600,
                   "random_instances": nrand, "random_max_side": 7 if quick else 9}
     insts = enumerate_instances(ctx, b)
